@@ -11,6 +11,8 @@ import (
 	"path/filepath"
 	"strings"
 	"time"
+
+	"github.com/sirupsen/logrus"
 )
 
 // stats is what every sub-command reports back to bin/check (merged into the evidence file).
@@ -185,4 +187,12 @@ func b(v bool) string {
 		return "true"
 	}
 	return "false"
+}
+
+// panicText renders a recovered panic value (logrus panics with the *Entry itself)
+func panicText(p interface{}) string {
+	if e, ok := p.(*logrus.Entry); ok {
+		return e.Message
+	}
+	return fmt.Sprint(p)
 }
